@@ -199,8 +199,8 @@ def gen_img(rng, full_pipeline=False):
     return attrs
 
 
-def img_html(attrs, selfclose=False):
-    return "<img" + "".join(" " + attr_html(k, v) for k, v in attrs) + ("/>" if selfclose else ">")
+def img_html(attrs, selfclose=False, tag="img"):
+    return "<" + tag + "".join(" " + attr_html(k, v) for k, v in attrs) + ("/>" if selfclose else ">")
 
 
 def gen_block(rng):
@@ -208,7 +208,9 @@ def gen_block(rng):
     r = rng.random()
     if r < 0.3:
         n = rng.choice([1, 1, 2, 3])
-        parts = [img_html(gen_img(rng), rng.random() < 0.2) for _ in range(n)]
+        parts = [img_html(gen_img(rng), rng.random() < 0.2,
+                          "img" if rng.random() < 0.85 else (upper_some(rng, "img") if rng.random() < 0.5 else rng.choice(IMG_LIKE)))
+                 for _ in range(n)]
         sep = rng.choice(["", "\n", " ", "\n \n"])
         return sep.join(parts) + rng.choice(["", "\n"]), "img"
     if r < 0.6:
@@ -227,8 +229,26 @@ def gen_block(rng):
     return "\n".join(parts[: rng.choice([2, 3])]), "mix"
 
 
+# class attribute values: (value, is "admonition" one of its white-space separated tokens)
+CLS_YES = ["admonition", "admonition tip", "note admonition", "admonition\twarning", " admonition ", "admonition admonition",
+           "a\nadmonition", "x\x0cadmonition\ry", "tip  admonition  note", "admonition-title admonition", "admonition Admonition"]
+CLS_NO = ["admonition-title", "myadmonition", "no-admonitions x", "admonitions", "admonition_", "x-admonition y", "Admonition",
+          "ADMONITION tip", "admonitio n", "admonition.tip", "tip,admonition", "", "note", "ad monition", "admonition-", "_admonition"]
+# element names near "img" / "div" (html.parser lower-cases names)
+IMG_LIKE = ["imgx", "im", "image", "img-x", "ximg", "picture"]
+DIV_LIKE = ["divx", "di", "section", "div-x", "p", "span"]
+# inner HTML of a <p> whose inline children are separated by white-space-only text nodes / with blanks at its ends
+INLINE_BODIES = ["<em>a</em> <strong>b</strong>", "<kbd>Ctrl</kbd> <kbd>C</kbd>", "<em>a</em>\n<strong>b</strong>",
+                 " lead <i>x</i> <b>y</b> ", "w <span>s</span>  <span>t</span> z", "<b>x</b> ", " <b>x</b>",
+                 "<em>a</em> <em>b</em> <em>c</em>", "*m* <kbd>K</kbd> <kbd>L</kbd> **n**", "<i>a</i>\t<i>b</i>"]
+
+
+def upper_some(rng, name):
+    return "".join(c.upper() if rng.random() < 0.5 else c for c in name)
+
+
 def gen_admonition(rng):
-    cls = rng.choice(["admonition", "admonition tip", "note admonition", "admonition\twarning", " admonition "])
+    cls = rng.choice(CLS_YES) if rng.random() < 0.8 else rng.choice(CLS_NO)
     attrs = [("class", cls)]
     if rng.random() < 0.4:
         attrs.append(("name", rand_value(rng)))
@@ -242,9 +262,13 @@ def gen_admonition(rng):
         inner.append('<%s class="%s">%s</%s>' % (tn, tc, rng.choice(["T", "A *title*", "<b>x</b> y", ""]), tn))
     for _ in range(rng.randint(0, 3)):
         inner.append(rng.choice(["<p>para **b**</p>", "text line", "<p>a<i>b</i></p>", "  <div class=\"admonition tip\">\n  <p>n</p>\n  </div>",
-                                 "<input disabled>", "<!-- c -->", "&amp; &#65;", "<p></p>", "<img src=\"i.png\">", " "]))
+                                 "<input disabled>", "<!-- c -->", "&amp; &#65;", "<p></p>", "<img src=\"i.png\">", " ",
+                                 "<p>%s</p>" % rng.choice(INLINE_BODIES), "<p>%s</p>" % rng.choice(INLINE_BODIES)]))
     close = rng.choice(["</div>", "</div>", ""])
-    return "<div" + "".join(" " + attr_html(k, v) for k, v in attrs) + ">\n" + "\n".join(inner) + ("\n" if inner else "") + close
+    tag = "div" if rng.random() < 0.85 else (upper_some(rng, "div") if rng.random() < 0.5 else rng.choice(DIV_LIKE))
+    if close:
+        close = "</%s>" % tag
+    return "<" + tag + "".join(" " + attr_html(k, v) for k, v in attrs) + ">\n" + "\n".join(inner) + ("\n" if inner else "") + close
 
 
 GFM_SMALL = "</script> "
@@ -498,7 +522,7 @@ def check_case(ctx, case):
     k = case["kind"]
     try:
         return {"gfm": check_gfm, "optline": check_optline, "h2n": check_h2n, "img": check_img, "adm": check_adm,
-                "raw": check_raw, "doc": check_doc_total}[k](ctx, case)
+                "raw": check_raw, "doc": check_doc_total, "conv": check_conv}[k](ctx, case)
     except Exception as e:  # noqa: BLE001
         import traceback
         site = traceback.extract_tb(e.__traceback__)[-1]
@@ -563,6 +587,92 @@ def check_h2n(ctx, case):
                 if not check_block_values(ctx, case, content):
                     return False
     return True
+
+
+def conv_text(case):
+    """the HTML block of a structured `conv` case: a sequence of top-level elements described by (tag, class value | None)"""
+    parts = []
+    for e in case["elems"]:
+        tag = e["tag"]
+        if e["what"] == "img":
+            parts.append("<%s%s src=\"a.png\"%s>" % (tag, "" if e.get("cls") is None else " " + attr_html("class", e["cls"]),
+                                                   " /" if e.get("selfclose") else "")
+                         + ("" if tag.lower() == "img" or e.get("selfclose") else "</%s>" % tag))
+        elif e["what"] == "div":
+            attrs = ([] if e.get("cls") is None else [("class", e["cls"])]) + [("name", "x")]
+            if e.get("class_last"):
+                attrs.reverse()
+            parts.append("<%s %s>\ntext\n</%s>" % (tag, " ".join(attr_html(k, v) for k, v in attrs), tag))
+        else:
+            parts.append(e["text"])
+    return case["sep"].join(parts)
+
+
+HTML_SPACE = " \t\n\x0c\r"          # the separators of a class attribute (HTML: ASCII white space)
+
+
+def class_tokens(value):
+    out, cur = [], ""
+    for ch in value:
+        if ch in HTML_SPACE:
+            if cur:
+                out.append(cur)
+            cur = ""
+        else:
+            cur += ch
+    return out + ([cur] if cur else [])
+
+
+def check_conv(ctx, case):
+    """Only <img> (html_image on) and <div> with the class *token* `admonition` (html_admonition on) are convertible; a
+    block is converted only if every top-level element is; anything else is one raw node holding exactly the source."""
+    text, img, adm = conv_text(case), case["img"], case["adm"]
+
+    def convertible(e):
+        name = e["tag"].lower()                          # HTML element names are ASCII case-insensitive
+        if e["what"] == "img":
+            return img and name == "img"
+        if e["what"] == "div":
+            return adm and name == "div" and e.get("cls") is not None and "admonition" in class_tokens(e["cls"])
+        return False
+
+    want_conv = all(convertible(e) for e in case["elems"])
+    impl, _ = call_html_to_nodes(text, img, adm, False, record=False)
+    if isinstance(impl, str) and impl.startswith("!"):
+        ctx.fail("exception:" + impl[1:] + ":html_to_nodes", {**case, "text": text}, "html_to_nodes raised " + impl)
+        return False
+    if not want_conv:
+        if impl != "R|" + text:
+            bad = next(e for e in case["elems"] if not convertible(e))
+            ctx.fail("passthrough:not-convertible:" + bad["what"], {**case, "text": text},
+                     "a block with a top-level element that is not <img> / <div class=admonition> was not passed through verbatim "
+                     f"(element {bad['tag']!r} class {bad.get('cls')!r})", "R|" + text, repr(impl)[:600])
+            return False
+        return True
+    names = ["image" if e["what"] == "img" else "admonition" for e in case["elems"]]
+    if not (isinstance(impl, tuple) and [d[0] for d in impl[1]] == names):
+        ctx.fail("convert:convertible-left-unconverted", {**case, "text": text},
+                 "a block of <img> / <div class=admonition> elements was not converted to the directives", names, repr(impl)[:600])
+        return False
+    return True
+
+
+def gen_conv(rng):
+    elems = []
+    for _ in range(rng.choice([1, 1, 1, 2, 3])):
+        r = rng.random()
+        if r < 0.55:
+            yes = rng.random() < 0.5
+            tag = "div" if rng.random() < 0.7 else (upper_some(rng, "div") if rng.random() < 0.6 else rng.choice(DIV_LIKE))
+            cls = rng.choice(CLS_YES if yes else CLS_NO) if rng.random() < 0.93 else None
+            elems.append({"what": "div", "tag": tag, "cls": cls, "class_last": rng.random() < 0.3})
+        elif r < 0.9:
+            tag = "img" if rng.random() < 0.6 else (upper_some(rng, "img") if rng.random() < 0.6 else rng.choice(IMG_LIKE))
+            elems.append({"what": "img", "tag": tag, "cls": rng.choice([None, None, "admonition", "a"]), "selfclose": rng.random() < 0.2})
+        else:
+            elems.append({"what": "other", "tag": "", "text": rng.choice(["text", "<span>x</span>", "<!-- c -->", "&amp;"])})
+    return {"kind": "conv", "elems": elems, "sep": rng.choice(["\n", "\n", "", " ", "\n \n"]),
+            "img": rng.random() < 0.75, "adm": rng.random() < 0.8}
 
 
 def check_block_values(ctx, case, content):
@@ -723,6 +833,9 @@ SEED_CASES = [
     {"kind": "img", "attrs": [["src", "a.png"], ["alt", None]]},
     {"kind": "optline", "value": "a #b"},
     {"kind": "adm", "title": "A *t*", "cls": "admonition tip", "name": "n #1", "paras": ["para **b**"], "tail": "rest"},
+    {"kind": "adm", "title": None, "cls": "admonition", "name": None, "paras": ["<em>a</em> <strong>b</strong>"], "tail": ""},
+    {"kind": "conv", "elems": [{"what": "div", "tag": "div", "cls": "note admonition-title"}], "sep": "\n", "img": True, "adm": True},
+    {"kind": "conv", "elems": [{"what": "img", "tag": "imgx", "cls": None}], "sep": "\n", "img": True, "adm": True},
     {"kind": "adm", "title": "T", "cls": "admonition", "name": None, "paras": [], "tail": "only line", "ttag": "div",
      "tcls": "admonition-title", "indent": "    "},
     {"kind": "raw", "text": "<div class=\"admonition\">\n<input disabled>\n</div>\n<span>x</span>\n"},
@@ -758,6 +871,9 @@ def search(ctx):
         text, _ = gen_block(rng)
         if run({"kind": "h2n", "text": text, "img": rng.random() < 0.7, "adm": rng.random() < 0.7, "gfm": rng.random() < 0.3}):
             return
+    for _ in range(ctx.budget(2500, 25000, 25000)):
+        if run(gen_conv(rng)):
+            return
     # full pipeline (docutils front end)
     for i in range(ctx.budget(150, 1500, 1500)):
         attrs = [a for a in gen_img(rng, full_pipeline=True) if a[1] is not None or a[0] != "src"]
@@ -769,7 +885,7 @@ def search(ctx):
         case = {"kind": "adm", "title": rng.choice([None, "T", "A *title* here", "x `c`"]),
                 "cls": rng.choice(["admonition", "admonition tip", "admonition a-b"]),
                 "name": rng.choice([None, "n1", "a #b", "x: y", "'q'", "| p"]),
-                "paras": [rng.choice(["para **b**", "one *two*", "a `c` d"]) for _ in range(rng.randint(0, 2))],
+                "paras": [rng.choice(["para **b**", "one *two*", "a `c` d"] + INLINE_BODIES) for _ in range(rng.randint(0, 2))],
                 "tail": rng.choice(["", "rest of it", "tail *t*"]), "img": rng.random() < 0.5,
                 "ttag": rng.choice(["p", "div"]), "tcls": rng.choice(["title", "title", "x title", "admonition-title"]),
                 "indent": rng.choice(["", "", "  ", "    ", "\t"])}
